@@ -25,6 +25,15 @@ ASSUMPTIONS = ["feasibility margins come from refchem sizes; the don't-care band
                "dilute / create_solution / create_solution_from accept-refuse oracles live in C11 / C05 / C12; here "
                "their results are held to the state invariant and to refusal of negative quantities",
                "TypeError is not generated for (no wrongly typed arguments)"]
+def shard_config(shard, tier):
+    """two of eight shards run with other storage units (a documented setting): what is feasible is a physical
+    question and does not depend on them (e.g. a plate's per-well capacity is 50 uL however volumes are stored)"""
+    # (units whose amount grain, as a volume, stays below the volume grain: under e.g. (mmol, nL) the second of two
+    # exact 1 uL aliquots of water is short by 7e-7 nL of what the stored 0.0555083734 mmol amount to, and whether
+    # that "fits" is a question about the configured resolution, left to C18's don't-care band)
+    return {6: {'volume_storage_unit': 'mL'}, 7: {'moles_storage_unit': 'nmol', 'volume_storage_unit': 'nL'}}.get(shard % 8)
+
+
 REQUIRED_CLASSES = {'quick': ['verdict:transfer:accept', 'verdict:transfer:refuse', 'verdict:fill_to:refuse',
                               'verdict:container:refuse', 'grid'],
                     'thorough': ['verdict:transfer:accept', 'verdict:transfer:refuse', 'verdict:fill_to:refuse',
